@@ -339,6 +339,9 @@ def run(rep):
                 rep.obs.append(o)
     except Exception as ex:
         rep.bad('C04.map-construction', 'mir-rules', '', f'cannot evaluate the construction-site rules: {ex!r}', undecided=True)
+    # the section reaches the assembled output unconditionally (shared rule, lib/sections.py)
+    from sections import check_wiring
+    check_wiring(rep, 'C04.section-wiring', ['pub mod bind_groups', 'get_bind_group_layout ( device )'], 'bind-groups-section')
 
 
 def contains(term, sub):
